@@ -144,7 +144,8 @@ def run_both(ctx, corr, ops, tag, nontrivial=None, oracle=None, lenient=()):
     """ops: list of protocol lines.  Runs the real code and the model, compares line by line; `oracle(op, impl_line)` may return
     a violation description (implementation against the property's right-hand side).  For an op in `lenient` an error reported by the
     real code where the model reads a token is not a disagreement (tokenize() went on and failed on a *later* token, which the model
-    of the first token does not cover); counted as `later_token_error`."""
+    of the first token does not cover); counted as `later_token_error`.  Likewise when the two texts agree and the model says `other`
+    because the text begins with the newlines that an out-of-region splice left in front of the literal."""
     if not ops:
         return
     text = ''.join(o + '\n' for o in ops)
@@ -159,6 +160,8 @@ def run_both(ctx, corr, ops, tag, nontrivial=None, oracle=None, lenient=()):
             corr.nontrivial.add(op)
         if li != lm and op in lenient and ' err ' in li and ' err ' not in lm:
             corr.count('later_token_error')
+        elif li != lm and op in lenient and lm.endswith(' other') and li.split(' ')[:2] == lm.split(' ')[:2]:
+            corr.count('literal_not_at_start_of_text')      # same phase-1/2 text; the model reads a literal at offset 0 only
         elif li != lm and len(corr.disagreements) < 5:
             corr.disagreements.append({'kind': tag, 'input': op, 'impl': li, 'model': lm})
         if oracle:
